@@ -3,7 +3,7 @@ from __future__ import annotations
 
 import itertools
 
-OUTCOMES = ["ok", "s1", "s2", "s3", "s4", "s5", "s6", "s7", "s128", "s255", "tid", "ctl", "empty"]  # empty: success with a zero-length body (reads only)  # s7/s128/s255: status bytes the table does not define
+OUTCOMES = ["ok", "s1", "s2", "s3", "s4", "s5", "s6", "s6b", "s7", "s128", "s255", "tid", "ctl", "empty"]  # s6b: a failed transaction whose response PDU carries a (3 byte) body  # empty: success with a zero-length body (reads only)  # s7/s128/s255: status bytes the table does not define
 READ_SETS = [[9], [9, 10], [2, 9, 10], [9, 13], [13, 41]]
 WRITE_SETS = [[9], [12], [9, 10], [9, 12], [9, 10, 12], [13], [9, 13], [14, 10], [13, 9, 14]]
 READABLE = {2, 9, 10, 13, 41}
@@ -16,11 +16,15 @@ def aid(i):
     return AID.get(i, 1)
 
 
+def _st(o):
+    return int(o[1:].rstrip("b"))
+
+
 def _script(opcode, ids, vec):
     sc = {}
     for i, o in zip(ids, vec):
         if o.startswith("s"):
-            sc[(opcode, i)] = {"status": int(o[1:])}
+            sc[(opcode, i)] = {"status": _st(o), **({"body": b"\x01\x01\x00"} if o.endswith("b") else {})}
         elif o == "tid":
             sc[(opcode, i)] = {"tid_delta": 7}
         elif o == "ctl":
@@ -68,7 +72,7 @@ def case_coap_read(p):
                 else:
                     if r is None or "value" in r or not r.get("status"):
                         out.append(("coap:failed-item-not-reported-as-per-item-error", dict(det, key=i, got=repr(r))))
-                    elif o.startswith("s") and abs(r["status"]) != int(o[1:]):
+                    elif o.startswith("s") and abs(r["status"]) != _st(o):
                         out.append(("coap:read-status-differs-from-accessory-status", dict(det, key=i, got=r["status"])))
             if out:
                 break
@@ -108,7 +112,7 @@ def case_coap_write(p):
                 if o.startswith("s"):
                     if r is None or not r.get("status"):
                         out.append(("coap:rejected-write-not-reported", dict(det, key=i)))
-                    elif abs(r["status"]) != int(o[1:]):
+                    elif abs(r["status"]) != _st(o):
                         out.append(("coap:rejected-write-reported-with-other-status", dict(det, key=i, got=r["status"])))
                     if i in notified:
                         out.append(("coap:listener-notified-of-rejected-write", dict(det, key=i)))
@@ -135,15 +139,15 @@ CASES = {"coap_read": case_coap_read, "coap_write": case_coap_write}
 def plan(tier):
     work = []
     for ids in READ_SETS:
-        alph = OUTCOMES if len(ids) <= (2 if tier == "quick" else 3) else ["ok", "s4", "tid", "ctl"]
+        alph = OUTCOMES if len(ids) <= (2 if tier == "quick" else 3) else ["ok", "s4", "s6b", "tid", "ctl"]
         vecs = list(itertools.product(alph, repeat=len(ids)))
         work.append(("coap_read", {"ids": ids, "replies": vecs[:1], "vectors": vecs}))
     # the same id more than once in one request (callers pass what they have): every occurrence is answered alike by the accessory
     for ids in ([9, 9, 10], [9, 10, 9], [10, 9, 9, 2], [13, 13, 41]):
-        vecs = [v for v in itertools.product(["ok", "s4", "s6", "tid", "empty"], repeat=len(ids)) if all(v[a] == v[b] for a in range(len(ids)) for b in range(len(ids)) if ids[a] == ids[b])]
+        vecs = [v for v in itertools.product(["ok", "s4", "s6b", "tid", "empty"], repeat=len(ids)) if all(v[a] == v[b] for a in range(len(ids)) for b in range(len(ids)) if ids[a] == ids[b])]
         work.append(("coap_read", {"ids": ids, "replies": vecs[:1], "vectors": vecs}))
     for ids in WRITE_SETS:
-        alph = [o for o in OUTCOMES if o != "empty"] if len(ids) <= (2 if tier == "quick" else 3) else ["ok", "s6", "tid", "ctl"]
+        alph = [o for o in OUTCOMES if o != "empty"] if len(ids) <= (2 if tier == "quick" else 3) else ["ok", "s6", "s6b", "tid", "ctl"]
         vecs = list(itertools.product(alph, repeat=len(ids)))
         work.append(("coap_write", {"ids": ids, "replies": vecs[:1], "vectors": vecs}))
     return work
